@@ -41,7 +41,7 @@ func runOverlapDir(m *model.Model, s *ob.Set) {
 				if !ok {
 					continue
 				}
-				cal := call.Call.StaticCallee()
+				cal := model.Unthunk(call.Call.StaticCallee())
 				if cal == nil || !m.InDecimalPkg(cal) || !carryKernels[cal.Name()] || len(call.Call.Args) < 3 {
 					continue
 				}
@@ -83,7 +83,7 @@ func runOverlapDir(m *model.Model, s *ob.Set) {
 						continue
 					}
 					if c, ok := ifi.Cond.(*ssa.Call); ok {
-						if gc := c.Call.StaticCallee(); gc != nil && (gc.Name() == "alias" || gc.Name() == "same") && (m.EdgeDominates(gb, 0, b) || m.EdgeDominates(gb, 1, b)) {
+						if gc := model.Unthunk(c.Call.StaticCallee()); gc != nil && (gc.Name() == "alias" || gc.Name() == "same") && (m.EdgeDominates(gb, 0, b) || m.EdgeDominates(gb, 1, b)) {
 							guarded = true
 						}
 					}
